@@ -17,7 +17,7 @@ MACHINES = ["M-IM"]
 def generate(rng, tier, idx):
     imgs = gen_im.gen_c09_pool(rng, n_ident=rng.randint(2, 6))
     rel = {"short": "F", "version": "20"}
-    version = pick(rng, [None, None, "1.2", "1.2", "1.1", "1.0", "0.3", "2.0"])
+    version = pick(rng, [None, None, "1.2", "1.2", "1.1", "1.0", "0.3", "2.0", "1.10", "10.0", "0.11"])
     ops = [{"op": "im_init", "compose": pools.compose(rng, rel), "version": version}]
     for i, img in enumerate(imgs):
         ops.append({"op": "img_new", "iid": i, "attrs": img})
